@@ -5,6 +5,7 @@ import (
 	"fmt"
 	"math/rand"
 	"sort"
+	"strings"
 	"time"
 
 	"verif/internal/eng"
@@ -268,9 +269,67 @@ func c04(c *ev.Ctx) {
 		}
 	})
 
-	// a script variable of the same name takes precedence over the field
+	// a script variable of the same name takes precedence over the field - whatever
+	// was looked up before (fields are converted lazily and cached per run), and
+	// however the variable came to exist
+	n2 := c.Pick(1500, 40000)
+	c.ParFor(n2, func(i int) {
+		id := fmt.Sprintf("shadow/%d", i)
+		if !c.Want(id) {
+			return
+		}
+		r := c.Rng("shadow", i)
+		doc := map[string]interface{}{"Name": "field-name", "Count": 3, "Tags": []interface{}{"a", "b"}, "Ratio": 1.5, "Ok": true}
+		names := []string{"Name", "Count", "Tags", "Ratio", "Ok"}
+		first := names[r.Intn(len(names))]  // read first: fills the cache
+		shadow := names[r.Intn(len(names))] // then shadowed
+		warm := []string{"", "w = " + first + "; ", "w = Absent; ", "if (" + first + ") { w = 1; } ", "w = len(" + first + "); "}[r.Intn(5)]
+		var script, want string
+		vars := map[string]model.Value{}
+		switch r.Intn(7) {
+		case 0: // assignment
+			script = warm + shadow + " = \"assigned\"; return " + shadow + ";"
+			want = "STRING:assigned"
+		case 1: // SetVariable by the host
+			vars[shadow] = model.Str("hostvar")
+			script = warm + "return " + shadow + ";"
+			want = "STRING:hostvar"
+		case 2: // function parameter
+			script = "function f(" + shadow + ") { " + warm + "return " + shadow + "; } " + warm + "return f(\"param\");"
+			want = "STRING:param"
+		case 3: // local
+			script = "function f() { " + warm + "local " + shadow + "; " + shadow + " = \"loc\"; return " + shadow + "; } " + warm + "return f();"
+			want = "STRING:loc"
+		case 4: // foreach variable
+			script = warm + "r = \"\"; foreach " + shadow + " in [\"x\", \"y\"] { r = r + " + shadow + "; } return r;"
+			want = "STRING:xy"
+		case 5: // compound assignment creates a variable from the field
+			script = warm + "Count += 10; return [Count, len(type(" + first + ")) > 0];"
+			want = "ARRAY:[13, true]"
+		default: // postfix
+			script = warm + "Count++; Count++; return Count;"
+			want = "INTEGER:5"
+		}
+		evr, err := eng.New(script, eng.Options{Vars: vars, NoOptimize: r.Intn(2) == 0})
+		if err != nil {
+			return
+		}
+		c.Case(script+fmt.Sprint(describeFields(vars)), true)
+		for run := 0; run < 2; run++ {
+			got := evr.Exec(doc).Desc()
+			if got != want {
+				c.Violation(id, "a variable does not take precedence over the field of the same name", map[string]interface{}{
+					"summary": fmt.Sprintf("%s (host variables %v) on %v: got %s, expected %s", script, describeFields(vars), doc, got, want), "script": script})
+				return
+			}
+			if strings.Contains(script, "Count++") || strings.Contains(script, "Count +=") || strings.Contains(script, " = \"assigned\"") {
+				break // the script's own variables persist into the next run by design
+			}
+		}
+	})
 	for i, tc := range []struct{ script, want string }{
 		{`return Name;`, "STRING:var"}, {`Name = "assigned"; return Name;`, "STRING:assigned"}, {`return [Name, Count];`, "ARRAY:[var, 3]"}, {`return $Name;`, "STRING:var"},
+		{`c = Count; return Name;`, "STRING:var"}, {`c = Count; d = Absent; return [c, Name, $Name];`, "ARRAY:[3, var, var]"},
 	} {
 		id := fmt.Sprintf("precedence/%d", i)
 		if !c.Want(id) {
